@@ -415,6 +415,16 @@ class Dimension:
     def __getnewargs_ex__(self) -> Tuple[Tuple[Tuple[int, ...]], Dict[str, Any]]:
         return (self.exponents,), {}
 
+    def __setstate__(self, state: Any) -> None:
+        # Unpickling and copying go through __new__, which hands back the interned
+        # instance when there is one; the state travelling with an older pickle must not
+        # overwrite what that instance has become since (names and symbols added later)
+        if getattr(self, "_initialized", False):
+            return
+        _, slots = state
+        for attribute, value in slots.items():
+            setattr(self, attribute, value)
+
     # JSON support
 
     def __json__(self) -> Dict[str, Any]:
@@ -722,6 +732,16 @@ class Prefix:
 
     def __getnewargs_ex__(self) -> Tuple[Tuple[int, Numeric], Dict[str, Any]]:
         return (self.base, self.exponent), {}
+
+    def __setstate__(self, state: Any) -> None:
+        # Unpickling and copying go through __new__, which hands back the interned
+        # instance when there is one; the state travelling with an older pickle must not
+        # overwrite what that instance has become since (names and symbols added later)
+        if getattr(self, "_initialized", False):
+            return
+        _, slots = state
+        for attribute, value in slots.items():
+            setattr(self, attribute, value)
 
     # JSON support
 
@@ -1076,6 +1096,16 @@ class Unit:
         args = (self.prefix, factors, self.dimension)
         kwargs = {"name": self.name, "symbol": self.symbol}
         return args, kwargs
+
+    def __setstate__(self, state: Any) -> None:
+        # Unpickling and copying go through __new__, which hands back the interned
+        # instance when there is one; the state travelling with an older pickle must not
+        # overwrite what that instance has become since (names and symbols added later)
+        if getattr(self, "_initialized", False):
+            return
+        _, slots = state
+        for attribute, value in slots.items():
+            setattr(self, attribute, value)
 
     # JSON support
 
